@@ -32,9 +32,18 @@ def one_fault(case, k):
     before = evorig.snapshot()
     tr = evorig.Trace(fail_at=k)
     r = evorig.run_evolver(trace=tr)
+    # the failed run must have given the connection back outside any transaction: a block that is still open means no
+    # rollback was issued (what the half-done batch wrote is still there for this connection, and nothing else works)
+    from django.db import connection
+    stuck = connection.in_atomic_block
+    if stuck:
+        dbrig.clear_stuck_transaction('default')
+        connection.ensure_connection()
     after = evorig.snapshot()
     rep = {'k': k, 'failed_sql': tr.failed_sql, 'outcome': r[0]}
     problems = []
+    if stuck:
+        problems.append(('stuck', 'the failed run left the connection inside its transaction: no rollback was issued'))
     if r[0] != 'error':
         problems.append(('no-error', 'the injected failure at write #%d was swallowed: the run returned normally' % k))
     else:
